@@ -62,6 +62,8 @@ def _gen_trees(rng, pool_n):
                     trees[j][name] = src[rel]
     if rng.random() < 0.1:
         trees.append(dict(trees[0]))
+    if rng.random() < 0.08:
+        trees.append({})  # the object of an empty directory: listing "[]"
     return trees
 
 
@@ -96,6 +98,8 @@ def _fault_for(rng, cfg):
         stages = [(5, "create"), (3, "mid"), (2, "rename")]
         if cfg["reflink"] == "cow" or cfg["hardlink"]:
             stages = [(1, "create")]
+        elif cfg.get("_prop") == "C04":
+            stages.append((2, "src_gone"))
         stage = gen.weighted(rng, stages)
         exc = "ENOSPC" if stage == "mid" else rng.choice(["EIO", "ENOSPC", "EACCES"])
     return {"stage": stage, "exc": exc}
@@ -107,6 +111,7 @@ def generate(prop, rng):
     pool = gen.content_pool(rng, n=rng.randint(3, 7))
     trees = _gen_trees(rng, len(pool))
     cfg = _gen_cfg(rng, prop)
+    cfg["_prop"] = prop
     loose = rng.sample(range(len(pool)), rng.randint(0, 2))
     tlabels = [f"T{i}" for i in range(len(trees))]
     req_trees = [t for t in tlabels if rng.random() < 0.85] or [tlabels[0]]
@@ -284,12 +289,20 @@ def _set_knobs(cfg):
     FileSystem.LIST_OBJECT_PAGE_SIZE = cfg.get("page_size", 1000)
 
 
-def _fault_rules(sc, m, labels):
+def _fault_rules(sc, m, labels, world=None):
     rules = []
     for lab in labels:
         fk = sc["fault_kinds"][lab]
         oid = m.oid[lab]
         match = f"{oid[:2]}/{oid[2:]}"
+        if fk["stage"] == "src_gone":
+            # another process removes the object from the SOURCE after the status was
+            # collected and before it is uploaded: the upload then fails on its own
+            def vanish(oid=oid, world=world):
+                world.raw_rm("src", sc["cfg"]["src_kind"], oid)
+
+            rules.append({"at": ("copy_open_src",), "match": match, "action": vanish, "name": "src_gone", "count": 1})
+            continue
         at = {
             "create": ("copy_create", "link", "os_open_w"),
             "mid": ("copy_mid",),
@@ -516,7 +529,7 @@ def _one(sc, ctx, m, idx, fail, req, req_star, src0, dest0, new):
                 )
 
     seam.monitors.append(mon)
-    seam.faults = _fault_rules(sc, m, fail)
+    seam.faults = _fault_rules(sc, m, fail, run.w)
     fired0 = sum(seam.fired.values())
     res = None
     try:
@@ -552,7 +565,7 @@ def _one(sc, ctx, m, idx, fail, req, req_star, src0, dest0, new):
             )
     # (iii) clean retry with the same arguments completes the destination
     if prop == "C04":
-        for lab in sc.get("src_missing", []):
+        for lab in list(sc.get("src_missing", [])) + [l for l in fail if sc["fault_kinds"][l]["stage"] == "src_gone"]:
             run.w.raw_add("src", cfg["src_kind"], m.oid[lab], m.bytes[m.oid[lab]])
         try:
             run.transfer(req)
@@ -896,10 +909,6 @@ def valid(sc):
             return False
         if lab.startswith("c") and int(lab[1:]) >= ncont:
             return False
-    if any(not t for t in trees if True) and any(
-        lab.startswith("T") and not trees[int(lab[1:])] for lab in labs
-    ):
-        return False  # empty directory objects are never built by dvc-data
     dest = set(sc.get("dest", []))
     src = set(sc.get("src", []))
 
